@@ -341,7 +341,9 @@ def _lrepr_datetime(o: datetime.datetime, **_) -> str:
 def _lrepr_decimal(
     o: Decimal, print_dup: bool = PRINT_DUP, human_readable: bool = False, **_
 ) -> str:
-    if (r := _special_number_repr(o, human_readable=human_readable)) is not None:
+    if not o.is_finite() and (
+        r := _special_number_repr(o, human_readable=human_readable)
+    ) is not None:
         return r
     if print_dup:
         return f"{o!s}M"
